@@ -271,6 +271,19 @@ SYSTEMATIC = [
     "def f(o):\n    pass\n",
     "def f(o):\n    x = o(1)\n",
     "def f(o):\n    while o(1):\n        pass\n    return 1\n",
+    # loops whose body is empty after pruning (self-loop header), not first in the function
+    "def f(o):\n    x = 0\n    while o(1):\n        pass\n    return x\n",
+    "def f(o):\n    x = 0\n    while o(1):\n        continue\n    return x\n",
+    "def f(o):\n    x = 0\n    for j in o.it(1):\n        pass\n    return x\n",
+    "def f(o):\n    x = 0\n    if o(1):\n        while o(2):\n            pass\n        x += 1\n    return x\n",
+    # break / continue inside an if inside the else-clause of a loop nested in another loop
+    "def f(o):\n    x = 0\n    while o(1):\n        for j in o.it(2):\n            x += 1\n        else:\n            if o(3):\n                break\n            x += 10\n        x += 100\n    return x\n",
+    "def f(o):\n    x = 0\n    while o(1):\n        for j in o.it(2):\n            x += 1\n        else:\n            if o(3):\n                continue\n            x += 10\n        x += 100\n    return x\n",
+    "def f(o):\n    x = 0\n    for j in o.it(1):\n        while o(2):\n            x += 1\n        else:\n            if o(3):\n                break\n            x += 10\n        x += 100\n    return x\n",
+    "def f(o):\n    x = 0\n    for j in o.it(1):\n        while o(2):\n            x += 1\n        else:\n            if o(3):\n                x += 5\n            else:\n                continue\n            x += 10\n        x += 100\n    return x\n",
+    "def f(o):\n    x = 0\n    for j in o.it(1):\n        for k in o.it(2):\n            x += 1\n            if o(3):\n                break\n        else:\n            if o(4):\n                break\n        x += 100\n    else:\n        x += 1000\n    return x\n",
+    # several exits of one loop to different places (value tables with several entries per target)
+    "def f(o):\n    x = 0\n    for j in o.it(1):\n        if o(2):\n            return x + 1\n        if o(3):\n            x += 5\n            break\n        x += 2\n    else:\n        x += 3\n    x += 4\n    return x\n",
 ]
 
 
